@@ -54,7 +54,8 @@ structure Good (s : Sys) : Prop where
   loopW : ∀ rid, some rid ∈ s.loopQ → Written s.log rid
   ord : Ordered s.log
 
-theorem good_init (info : Info) (p : Pairings) (ss : List (Nat × Client)) : Good (init info p ss) :=
+theorem good_init (info : Info) (p : Pairings) (ss : List (Nat × Client)) (safe : Bool := false) :
+    Good (init info p ss safe) :=
   ⟨by simp [init], by simp [init], by simp [init, Ordered]⟩
 
 /-- a response that reports a pairing change is never a deferred one -/
@@ -144,10 +145,14 @@ theorem good_step (s : Sys) (st : Step) (h : Good s) : Good (step s st) := by
       · intro x hx
         exact h.execW x ((List.eraseIdx_sublist _ _).mem hx)
       · intro x hx
-        simp only [List.mem_append, List.mem_singleton, Option.some.injEq] at hx
-        rcases hx with hx | rfl
-        · exact h.loopW x hx
-        · exact h.execW x (List.mem_of_getElem? hd)
+        cases hsm : s.safeMode
+        · simp only [hsm, Bool.false_eq_true, if_false, List.mem_append, List.mem_singleton,
+            Option.some.injEq] at hx
+          rcases hx with hx | rfl
+          · exact h.loopW x hx
+          · exact h.execW x (List.mem_of_getElem? hd)
+        · simp only [hsm, if_true] at hx
+          exact h.loopW x hx
   | loopRun i =>
     simp only [step]
     cases hd : s.loopQ[i]? with
@@ -295,7 +300,7 @@ def Step.isAppUnpair : Step → Bool
   | _ => false
 
 theorem track_step (r0 : List (String × String)) (s : Sys) (st : Step) (hst : st.isAppUnpair = false)
-    (h : Track r0 s) : Track r0 (step s st) := by
+    (hsm : s.safeMode = false) (h : Track r0 s) : Track r0 (step s st) := by
   cases st with
   | request conn r =>
     simp only [step]
@@ -326,7 +331,7 @@ theorem track_step (r0 : List (String × String)) (s : Sys) (st : Step) (hst : s
     simp only [step]
     cases hd : s.execQ[i]? with
     | none => exact h
-    | some rid => exact Or.inl (Or.inr (by simp))
+    | some rid => exact Or.inl (Or.inr (by simp [hsm]))
   | loopRun i =>
     simp only [step]
     cases hd : s.loopQ[i]? with
@@ -336,14 +341,42 @@ theorem track_step (r0 : List (String × String)) (s : Sys) (st : Step) (hst : s
   | appRefresh => exact Or.inl (Or.inr (by simp [step]))
   | appUnpair c => simp [Step.isAppUnpair] at hst
 
+theorem pr_safeMode (s : Sys) (c rid : Nat) (r : Resp) : (processResponse s c rid r).safeMode = s.safeMode := by
+  unfold processResponse
+  cases r.task <;> cases r.sharedKey <;> cases r.pairingRemoved <;> cases r.pairingChanged <;> rfl
+
+/-- nothing in a trace changes the `safe_mode` switch -/
+theorem step_safeMode (s : Sys) (st : Step) : (step s st).safeMode = s.safeMode := by
+  cases st with
+  | request conn r =>
+    simp only [step]
+    split
+    · rfl
+    · rw [pr_safeMode]
+  | taskDone i =>
+    simp only [step]
+    split
+    · rfl
+    · split <;> rfl
+  | execRun i => simp only [step]; split <;> rfl
+  | loopRun i => simp only [step]; split <;> rfl
+  | configChanged => rfl
+  | appRefresh => rfl
+  | appUnpair c => simp only [step]; split <;> rfl
+
+theorem run_safeMode (s : Sys) (steps : List Step) : (run s steps).safeMode = s.safeMode := by
+  induction steps generalizing s with
+  | nil => rfl
+  | cons st rest ih => exact (ih _).trans (step_safeMode s st)
+
 theorem track_run (r0 : List (String × String)) (s : Sys) (steps : List Step)
-    (hst : ∀ st ∈ steps, st.isAppUnpair = false) (h : Track r0 s) :
+    (hst : ∀ st ∈ steps, st.isAppUnpair = false) (hsm : s.safeMode = false) (h : Track r0 s) :
     Track r0 (run s steps) := by
   induction steps generalizing s with
   | nil => exact h
   | cons st rest ih =>
-    exact ih _ (fun x hx => hst x (List.mem_cons_of_mem _ hx))
-      (track_step r0 s st (hst st List.mem_cons_self) h)
+    exact ih _ (fun x hx => hst x (List.mem_cons_of_mem _ hx)) ((step_safeMode s st).trans hsm)
+      (track_step r0 s st (hst st List.mem_cons_self) hsm h)
 
 theorem track_init (info : Info) (p : Pairings) (ss : List (Nat × Client)) :
     Track (initialRecord info p) (init info p ss) :=
@@ -382,7 +415,7 @@ structure Pub (i0 : Info) (s : Sys) : Prop where
   log : ∀ c txt, Obs.publish c txt ∈ s.log → RecOk i0 txt
 
 theorem pub_init (info : Info) (p : Pairings) (ss : List (Nat × Client))
-    (h : 1 ≤ info.cfg ∧ info.cfg ≤ 65535) : Pub info (init info p ss) :=
+    (h : 1 ≤ info.cfg ∧ info.cfg ≤ 65535) (safe : Bool := false) : Pub info (init info p ss safe) :=
   ⟨⟨rfl, rfl, rfl, rfl⟩, h, by simp [init]⟩
 
 theorem record_recOk {i0 : Info} {s : Sys} (h : Pub i0 s) : RecOk i0 (record s) := by
@@ -484,7 +517,8 @@ structure Fresh (s : Sys) : Prop where
   execQ : ∀ r ∈ s.execQ, r < s.nextRid
   loopQ : ∀ r, some r ∈ s.loopQ → r < s.nextRid
 
-theorem fresh_init (info : Info) (p : Pairings) (ss : List (Nat × Client)) : Fresh (init info p ss) :=
+theorem fresh_init (info : Info) (p : Pairings) (ss : List (Nat × Client)) (safe : Bool := false) :
+    Fresh (init info p ss safe) :=
   ⟨by simp [init], by simp [init], by simp [init], by simp [init]⟩
 
 theorem pr_nextRid (s : Sys) (c rid : Nat) (r : Resp) : (processResponse s c rid r).nextRid = s.nextRid := by
@@ -576,10 +610,14 @@ theorem fresh_step (s : Sys) (st : Step) (h : Fresh s) : Fresh (step s st) := by
       refine ⟨h.log, h.deferred, ?_, ?_⟩
       · intro x hx; exact h.execQ x ((List.eraseIdx_sublist _ _).mem hx)
       · intro x hx
-        simp only [List.mem_append, List.mem_singleton, Option.some.injEq] at hx
-        rcases hx with hx | rfl
-        · exact h.loopQ x hx
-        · exact h.execQ x (List.mem_of_getElem? hd)
+        cases hsm : s.safeMode
+        · simp only [hsm, Bool.false_eq_true, if_false, List.mem_append, List.mem_singleton,
+            Option.some.injEq] at hx
+          rcases hx with hx | rfl
+          · exact h.loopQ x hx
+          · exact h.execQ x (List.mem_of_getElem? hd)
+        · simp only [hsm, if_true] at hx
+          exact h.loopQ x hx
   | loopRun i =>
     simp only [step]
     cases hd : s.loopQ[i]? with
@@ -724,5 +762,91 @@ theorem own_run (conn rid : Nat) (s : Sys) (steps : List Step) (h : Own conn rid
   | nil => exact h
   | cons st rest ih => exact ih _ (own_step conn rid s st h)
 
+/-! ## safe mode: no refresh is ever caused by a request -/
+
+structure Quiet (s : Sys) : Prop where
+  safe : s.safeMode = true
+  loopQ : ∀ r, some r ∉ s.loopQ
+  log : ∀ r txt, Obs.publish (some r) txt ∉ s.log
+
+theorem quiet_init (info : Info) (p : Pairings) (ss : List (Nat × Client)) : Quiet (init info p ss true) :=
+  ⟨rfl, by simp [init], by simp [init]⟩
+
+theorem quiet_step (s : Sys) (st : Step) (h : Quiet s) : Quiet (step s st) := by
+  refine ⟨(step_safeMode s st).trans h.safe, ?_, ?_⟩
+  · cases st with
+    | request conn r =>
+      simp only [step]
+      split
+      · exact h.loopQ
+      · rw [pr_loopQ]; exact h.loopQ
+    | taskDone i =>
+      simp only [step]
+      split
+      · exact h.loopQ
+      · split <;> exact h.loopQ
+    | execRun i =>
+      simp only [step]
+      split
+      · exact h.loopQ
+      · simp only [h.safe, if_true]; exact h.loopQ
+    | loopRun i =>
+      simp only [step]
+      split
+      · exact h.loopQ
+      · intro r hr; exact h.loopQ r ((List.eraseIdx_sublist _ _).mem hr)
+    | configChanged =>
+      intro r hr
+      simp only [step, List.mem_append, List.mem_singleton] at hr
+      rcases hr with hr | hr
+      · exact h.loopQ r hr
+      · cases hr
+    | appRefresh =>
+      intro r hr
+      simp only [step, List.mem_append, List.mem_singleton] at hr
+      rcases hr with hr | hr
+      · exact h.loopQ r hr
+      · cases hr
+    | appUnpair c => simp only [step]; split <;> exact h.loopQ
+  · cases st with
+    | request conn r =>
+      simp only [step]
+      split
+      · exact h.log
+      · intro r' txt hm
+        rcases pr_mem_log' _ _ _ _ _ hm with hm | hm | hm
+        · exact h.log r' txt hm
+        · cases hm
+        · cases hm
+    | taskDone i =>
+      simp only [step]
+      split
+      · exact h.log
+      · split
+        · exact h.log
+        · intro r' txt hm
+          simp only [List.mem_cons] at hm
+          rcases hm with hm | hm
+          · cases hm
+          · exact h.log r' txt hm
+    | execRun i => simp only [step]; split <;> exact h.log
+    | loopRun i =>
+      simp only [step]
+      split
+      · exact h.log
+      · rename_i cause hd
+        intro r' txt hm
+        simp only [List.mem_cons, Obs.publish.injEq] at hm
+        rcases hm with ⟨hc, _⟩ | hm
+        · exact h.loopQ r' (hc ▸ List.mem_of_getElem? hd)
+        · exact h.log r' txt hm
+    | configChanged => exact h.log
+    | appRefresh => exact h.log
+    | appUnpair c => simp only [step]; split <;> exact h.log
+
+theorem quiet_run (s : Sys) (steps : List Step) (h : Quiet s) : Quiet (run s steps) := by
+  induction steps generalizing s with
+  | nil => exact h
+  | cons st rest ih => exact ih _ (quiet_step s st h)
 
 end Hap.AdvertSys
